@@ -59,12 +59,14 @@ ASSUMPTIONS = [
     'batch counts in a pre-existing submit cache are arbitrary integers >= 0',
 ]
 BOUNDS = {
-    'quick': 'integers unbounded; <=3 employees; L1/L2 batches <=4 tasks with 3 employees, <=6 with 2, <=6 with 1; '
-             'submit cache <=3; L23 sequences of 3 steps (2 employees, batches <=2); L4 batches <=4',
-    'thorough': 'integers unbounded; <=3 employees; batches <=6 tasks; submit cache <=3; L23 sequences of 4 steps '
-                '(batches <=3, 2 employees) and 3 steps with 3 employees',
+    'quick': 'integers unbounded; <=3 employees; L1/L2 batches <=6 tasks with 1-2 employees, <=3 with 3 employees (L1: <=2); '
+             'submit cache <=3 entries; L23 sequences of 3 steps with batches of 1 and of 2 steps with batches <=2 '
+             '(2 employees); L4 send_up batches <=4 (2 employees) / <=3 (3 employees)',
+    'thorough': 'integers unbounded; <=3 employees; L1/L2 batches <=6 tasks with 1-2 employees, <=5 with 3 employees '
+                '(L1: <=4); submit cache <=3 entries; L23 sequences of 3 steps with batches <=2, of 4 steps with batches '
+                'of 1 (2 employees) and of 3 steps with 3 employees; L4 send_up batches <=6 (2 employees) / <=5 (3)',
 }
-OUTSIDE = 'more than 3 employees / 6 tasks per batch / 3 cache entries per employee; message interleavings between ' \
+OUTSIDE = 'more than 3 employees / 6 tasks per batch (5 with 3 employees) / 3 cache entries per employee; message interleavings between ' \
           'nodes (Part B); accuracy of the load estimate num_tasks (only its sign and exact per-call effect are checked)'
 RULE = 'one case = one path of the symbolic execution tree of a lemma function (a distinct solver-feasible branch ' \
        'combination of the real scheduler code over unbounded integer counters); non-trivial = precondition ' \
@@ -100,6 +102,32 @@ def _check_I(node: Any) -> 'str | None':
     if node.total_workers != t:
         return 'I:node-total'
     return None
+
+
+def _shard_pre(T: int, idle: list, r: list) -> bool:
+    """Obligations of one shape partition the input space (parallelisation only): by the total number of idle
+    workers (exactly v < T, or >= T) and by the order relation of the tie-break values."""
+    sh = rt.SHARD
+    if 'tot' in sh:
+        tot: Any = 0
+        for v in idle:
+            tot = tot + v
+        if sh['tot'] >= T:
+            if tot < T:
+                return False
+        elif tot != sh['tot']:
+            return False
+    for key, a, b in (('r01', 0, 1), ('r12', 1, 2)):
+        if key in sh:
+            if sh[key] < 0:
+                if not r[a] < r[b]:
+                    return False
+            elif sh[key] == 0:
+                if r[a] != r[b]:
+                    return False
+            elif not r[a] > r[b]:
+                return False
+    return True
 
 
 def _server(E: int, idle: list, total: list, ntasks: list, cls: Any = DetachedServer, managers: bool = False) -> Any:
@@ -168,7 +196,7 @@ def l1_assign(i0: int, i1: int, i2: int, n0: int, n1: int, n2: int, c0: int, c1:
     reset_globals()
     E, T = rt.SHARD['E'], rt.SHARD['T']
     idle, ntasks = [i0, i1, i2][:E], [n0, n1, n2][:E]
-    if not _pre_I(E, idle, idle, ntasks):
+    if not _pre_I(E, idle, idle, ntasks) or not _shard_pre(T, idle, [r0, r1, r2]):
         return True
     node = _server(E, idle, list(idle), ntasks)
     tasks = _batch(T)
@@ -240,7 +268,7 @@ def l2_schedule(i0: int, i1: int, i2: int, w0: int, w1: int, w2: int, n0: int, n
     reset_globals()
     E, T = rt.SHARD['E'], rt.SHARD['T']
     idle, total, ntasks = [i0, i1, i2][:E], [w0, w1, w2][:E], [n0, n1, n2][:E]
-    if not _pre_I(E, idle, total, ntasks):
+    if not _pre_I(E, idle, total, ntasks) or not _shard_pre(T, idle, [r0, r1, r2]):
         return True
     node = _server(E, idle, total, ntasks)
     K = rt.SHARD.get('K', 0)
@@ -737,29 +765,61 @@ def part_a(tier: str) -> list[dict]:
         obs.append({'name': 'A/' + name, 'func': func, 'shard': shard, 'timeout': timeout})
 
     quick = tier == 'quick'
-    to = 240 if quick else 2400
+    to = 400 if quick else 2400
 
-    def shapes_for(lemma: str) -> list:
-        """(E, T, pinned first shuffle choices). Shapes with many paths are split by the first choices."""
-        out: list = [(1, t, None) for t in (1, 3, 6)] + [(2, t, None) for t in (1, 2, 3, 4, 5)]
-        out += [(2, 6, [a]) for a in range(2)]
-        out += [(3, 1, None), (3, 2, None)] + [(3, 3, [a, b]) for a in range(3) for b in range(3)]
-        if not quick:
-            out += [(3, 4, [a, b, c]) for a in range(3) for b in range(3) for c in range(3)]
-            if lemma == 'L2':
-                out += [(3, 5, [a, b, c, d]) for a in range(3) for b in range(3) for c in range(3) for d in range(3)]
+    def split(E: int, T: int, depth: int) -> list:
+        """Shards of one shape by its first `depth` shuffle choices."""
+        out = []
+
+        def rec(pre: list) -> None:
+            if len(pre) >= min(depth, T):
+                out.append((E, T, {'fix': list(pre)}))
+                return
+            for a in range(E):
+                rec(pre + [a])
+        rec([])
         return out
 
+    def split_tot(E: int, T: int, depth: int) -> list:
+        """Shards by total idle count: >= T (no overflow; further by the first shuffle choices) or exactly
+        v < T (T - v tasks overflow to the least loaded; further by the order of the tie-break values)."""
+        out = [(E, T, dict(x[2], tot=T)) for x in split(E, T, depth)]
+        for v in range(T):
+            if E == 3:
+                out += [(E, T, {'tot': v, 'r01': a, 'r12': b}) for a in (-1, 0, 1) for b in (-1, 0, 1)]
+            else:
+                out.append((E, T, {'tot': v}))
+        return out
+
+    def shapes_for(lemma: str) -> list:
+        """(E, T, extra shard keys). L2 judges the assignment too, so the largest shapes run as L2 only."""
+        out: list = [(1, t, {}) for t in (1, 3, 6)] + [(2, t, {}) for t in (1, 2, 3, 4, 5)]
+        out += split_tot(2, 6, 1)
+        out += [(3, 1, {}), (3, 2, {})]
+        if lemma == 'L2' or not quick:
+            out += split_tot(3, 3, 1)
+        if not quick:
+            out += split_tot(3, 4, 2)
+            if lemma == 'L2':
+                out += split_tot(3, 5, 3)
+        return out
+
+    def suffix(extra: dict) -> str:
+        t = ''
+        if 'tot' in extra:
+            t += '/idle=%d' % extra['tot']
+        if 'fix' in extra:
+            t += '/first=' + ''.join(map(str, extra['fix']))
+        if 'r01' in extra:
+            t += '/r=' + '<=>'[extra['r01'] + 1] + '<=>'[extra['r12'] + 1]
+        return t
+
     for lemma, func in (('L1', 'l1_assign'), ('L2', 'l2_schedule')):
-        for E, T, fix in shapes_for(lemma):
-            sh: dict = {'E': E, 'T': T}
-            name = '%s/%s/E%d/T%d' % (lemma, func[3:], E, T)
-            if fix is not None:
-                sh['fix'] = fix
-                name += '/first=' + ''.join(map(str, fix))
+        for E, T, extra in shapes_for(lemma):
+            sh: dict = dict(extra, E=E, T=T)
             if lemma == 'L2':
                 sh['K'] = (E + T) % 3
-            ob(name, func, sh, to)
+            ob('%s/%s/E%d/T%d%s' % (lemma, func[3:], E, T, suffix(extra)), func, sh, to)
     ob('L2/schedule/E2/T0', 'l2_schedule', {'E': 2, 'T': 0, 'K': 1}, to)
     ob('L2/schedule-via-message/E2/T3', 'l2_schedule', {'E': 2, 'T': 3, 'K': 0, 'via': 'message'}, to)
     for E in (1, 2, 3):
@@ -770,17 +830,28 @@ def part_a(tier: str) -> list[dict]:
     ob('L3/waiting-via-message/manager', 'l3_waiting', {'E': 2, 'K': 3, 'x': 0, 'via': 'message', 'node': 'manager'}, to)
     ob('L3/waiting/manager', 'l3_waiting', {'E': 2, 'K': 2, 'x': 1, 'node': 'manager'}, to)
     S, W = 0, 1
-    seqs = [[S, W, W], [S, S, W], [W, S, W], [S, W, S]]
-    if not quick:
-        seqs = [[a, b, c] for a in (S, W) for b in (S, W) for c in (S, W)]
-        seqs += [[a, b, c, d] for a in (S, W) for b in (S, W) for c in (S, W) for d in (S, W)]
-    for kinds in seqs:
-        ob('L23/seq/E2/TM2/' + ''.join('SW'[k] for k in kinds), 'l23_seq', {'E': 2, 'N': len(kinds), 'TM': 2, 'kinds': kinds}, to)
-    if not quick:
+
+    def seq(E: int, TM: int, kinds: list) -> None:
+        ob('L23/seq/E%d/TM%d/%s' % (E, TM, ''.join('SW'[k] for k in kinds)), 'l23_seq',
+           {'E': E, 'N': len(kinds), 'TM': TM, 'kinds': kinds}, to)
+
+    if quick:
+        for kinds in [[S, W, W], [S, S, W], [W, S, W], [S, W, S]]:
+            seq(2, 1, kinds)
+        for kinds in [[S, W], [W, S], [W, W]]:
+            seq(2, 2, kinds)
+    else:
+        for kinds in [[a, b, c] for a in (S, W) for b in (S, W) for c in (S, W)]:
+            seq(2, 2, kinds)
+        for kinds in [[a, b, c, d] for a in (S, W) for b in (S, W) for c in (S, W) for d in (S, W)]:
+            seq(2, 1, kinds)
         for kinds in [[S, W, W], [S, S, W], [S, W, S]]:
-            ob('L23/seq/E3/TM2/' + ''.join('SW'[k] for k in kinds), 'l23_seq', {'E': 3, 'N': 3, 'TM': 2, 'kinds': kinds}, to)
-    for E, T in [(1, 2), (2, 1), (2, 2), (2, 3), (2, 4), (3, 2), (3, 3)] + ([] if quick else [(2, 6), (3, 4), (3, 5), (3, 6)]):
-        ob('L4/send_up/E%d/T%d' % (E, T), 'l4_send_up', {'E': E, 'T': T, 'receipt': (E + T) % 2}, to)
+            seq(3, 1, kinds)
+    sends: list = [(1, 2, {}), (2, 1, {}), (2, 2, {}), (2, 3, {}), (2, 4, {}), (3, 2, {}), (3, 3, {})]
+    if not quick:
+        sends += [(2, 6, {})] + split(3, 4, 1) + split(3, 5, 2)
+    for E, T, extra in sends:
+        ob('L4/send_up/E%d/T%d%s' % (E, T, suffix(extra)), 'l4_send_up', dict(extra, E=E, T=T, receipt=(E + T) % 2), to)
     ob('L4/send_up-via-message/E2/T2', 'l4_send_up', {'E': 2, 'T': 2, 'receipt': 1, 'via': 'message'}, to)
     for r in (0, 1):
         ob('L4/update_upstream/receipt%d' % r, 'l4_update_upstream', {'receipt': r}, to)
